@@ -208,7 +208,6 @@ pub struct Step {
     /// Number of faults that had fired before / after this op.
     pub fired_before: usize,
     pub fired_after: usize,
-    pub from_drain: bool,
 }
 
 pub struct HistRun {
@@ -295,7 +294,7 @@ impl<'m> Driver<'m> {
             }
             let is_end = op.reports_end() && matches!(res, Ok(None));
             let sticky_io = self.sticky_hard && matches!(&res, Err(e) if e.cat == Cat::Io);
-            steps.push(Step { op, res, fired_before, fired_after: fired.len(), from_drain });
+            steps.push(Step { op, res, fired_before, fired_after: fired.len() });
             if abnormal {
                 break;
             }
@@ -703,7 +702,7 @@ fn check_any(case: &HistCase, input: &[u8], mon: &mut Mon) {
         }
     }
     let nb = upto(&base);
-    let mut compare = |name: &str, other: &[&PRes], mon: &mut Mon| {
+    let compare = |name: &str, other: &[&PRes], mon: &mut Mon| {
         let no = upto(other);
         let same = nb == no && (0..nb).all(|i| equiv(base[i], other[i]));
         if !same {
